@@ -50,6 +50,10 @@ def make_arrays(step, sc):
         pa.add_property('ident', type='long', data=np.array(a['id']))
         pa.add_property('vec', stride=3, data=np.repeat(
             np.array(a['id'], dtype=float), 3) + np.tile([.25, .5, .75], n))
+        # properties declared after a strided one (scalar and strided)
+        pa.add_property('tail', data=np.array(a['id'], dtype=float) + .125)
+        pa.add_property('pair', stride=2, type='int', data=np.repeat(
+            np.array(a['id']), 2) * 2 + np.tile([0, 1], n))
         pas.append(pa)
     return pas
 
@@ -79,7 +83,9 @@ def mutate(pas, prev, cur, sc):
                 h=u * np.array([a1['h'][j] for j in k], dtype=float),
                 ident=np.array(new),
                 vec=np.repeat(np.array(new, dtype=float), 3) +
-                np.tile([.25, .5, .75], n))
+                np.tile([.25, .5, .75], n),
+                tail=np.array(new, dtype=float) + .125,
+                pair=np.repeat(np.array(new), 2) * 2 + np.tile([0, 1], n))
         cur_ids = [int(v) for v in pa.get('ident', only_real_particles=False)]
         # move / change h of survivors, in the real array's own order
         pos = {i: j for j, i in enumerate(ids1)}
@@ -146,10 +152,14 @@ def reorder_all(nn, pas, sc):
         indices = [int(v) for v in idx.get_npy_array()]
         nn.spatially_order_particles(k)
         vec = pa.get('vec', only_real_particles=False)
+        tail = pa.get('tail', only_real_particles=False)
+        pair = pa.get('pair', only_real_particles=False)
         ident = pa.get('ident', only_real_particles=False)
         together = all(
             vec[3 * r] == ident[r] + .25 and vec[3 * r + 1] == ident[r] + .5
-            and vec[3 * r + 2] == ident[r] + .75 for r in range(len(ident)))
+            and vec[3 * r + 2] == ident[r] + .75 and tail[r] == ident[r] + .125
+            and pair[2 * r] == 2 * ident[r] and pair[2 * r + 1] == 2 * ident[r] + 1
+            for r in range(len(ident)))
         out.append(dict(a=k, indices=indices, before=before,
                         together=bool(together),
                         nreal=int(pa.num_real_particles)))
